@@ -216,8 +216,12 @@ def check_for_prefix_and_suffix_exceptions(sObjectValue, self, oToi, iIndex, iLi
         sActualPrefix = extract_prefix(sObjectValue, sDesiredPrefix)
         sConstant = remove_prefix(sObjectValue, sActualPrefix)
         sDesiredSuffix = get_matched_suffix(sConstant, self.suffix_exceptions)
-        sActualSuffix = extract_suffix(sConstant, sDesiredSuffix)
-        sConstant = remove_suffix(sConstant, sActualSuffix)
+        if sDesiredSuffix is None:
+            # the suffix overlaps the prefix: nothing of it is left after the prefix
+            sDesiredSuffix = ""
+        else:
+            sActualSuffix = extract_suffix(sConstant, sDesiredSuffix)
+            sConstant = remove_suffix(sConstant, sActualSuffix)
         sExpected = sDesiredPrefix + sConstant.lower() + sDesiredSuffix
     elif prefix_detected(sObjectValue, self.prefix_exceptions):
         sDesiredPrefix = get_matched_prefix(sObjectValue, self.prefix_exceptions)
